@@ -35,7 +35,8 @@ CLAIM = dict(
          "value, to any depth; the same at the ENVELOPE layer (C02_reencoded_payloads_same_value, "
          "C02_reencoded_frame_is_read: a frame whose extension payloads - and the payloads nested inside them, to "
          "any depth - were re-encoded by any conforming writer is decoded to exactly the object); M3: the packer's own "
-         "output is one of them; the format is unambiguous. Tie: "
+         "output is one of them; the format is unambiguous; the identifier rule is executable inside the model (SHA-256, "
+         "C02_sha256_vectors by kernel evaluation) and the model reader identifies descriptors with it. Tie: "
          "implementation bytes are decoded by the Lean reference reader to the records written; independently encoded "
          "conforming streams (non-minimal msgpack classes, older shapes) are decoded by the implementation; frozen "
          "golden corpus; identifiers re-computed with hashlib.",
@@ -382,12 +383,19 @@ def oracle(case, obs):
 
 def model_op(case, obs):
     if case["kind"] == "ident":
-        return None
-    return {"op": "wire_read", "hex": obs["stream"], "hashes": obs["hashes"]}
+        # the published identifier rule computed by the model's own SHA-256 (Spec.descriptorHash)
+        return {"op": "ident", "name": V.enc_str(case["name"]),
+                "fields": [[V.enc_str(t), V.enc_str(n)] for t, n in case["fields"]]}
+    # no "hashes" table: the model reader identifies received descriptors by the published rule itself
+    return {"op": "wire_read", "hex": obs["stream"]}
 
 
 def compare(case, obs, mo):
     k = case["kind"]
+    if k == "ident":
+        if mo.get("hash") != obs["identifier"][1]:
+            return f"descriptor hash: model (Spec.descriptorHash) {mo.get('hash')} vs implementation {obs['identifier'][1]}"
+        return None
     if "records" not in mo:
         return f"model error: {mo}"
     got = W.canon_model_rv(mo["records"])
